@@ -173,6 +173,22 @@ def run(ctx):
         r2 = {enc(k): enc(v) for k, v in AliasRewriter(m).replacements.items()}
         if r1 != r2:
             ar_bad.append((m, r1))
+    # the rewriter as part of the HISTORY: building it (successfully or with an alias that raises — syntax error, tokenising error, function error,
+    # a key that is not a field) on caller-supplied instances, then parsing probes on those same instances
+    bad_maps = [{"b": "author/ eq"}, {"b": "author # name"}, {"length(a)": "a_len"}, {"b": "foo(1)"}, {"b": "concat(1)"}, {"(": "x"}, {"a": "x", "b": "'unterminated"},
+                {"a": "(((", "c": "d"}, {"x": "f.g(x=1, 2)"}]
+    for i, m in enumerate(bad_maps + maps):
+        for probe in ["coalesce(a, b) eq 1", "substring(name) eq 'x'", "geo.area(x) gt 1", "foo(1)", "concat(1)", "a eq 1", "(a eq 1)", "f.g(x=1)", "x/any(t: t eq 1)", "now(1)"]:
+            lx, ps = ODataLexer(), ODataParser()
+            try:
+                AliasRewriter(m, lx, ps)
+            except Exception:  # noqa
+                pass
+            got = outcome(lx, ps, probe)
+            want = fresh(probe)
+            ctx.evaluations += 1
+            if got != want:
+                ar_bad.append((m, f"after AliasRewriter({m!r}, lexer, parser) the probe {probe!r} gives {got[:120]} on those instances, fresh instances give {want[:120]}"))
     ctx.evaluations += 200 if ctx.thorough else 60
     if ar_bad:
         ctx.broken.append(f"AliasRewriter built with used lexer/parser differs from fresh ones: {ar_bad[0]!r}")
